@@ -14,8 +14,8 @@ type vSock struct {
 }
 
 func (v *vSock) open(iface string, etherType uint16) error { return nil }
-func (v *vSock) close() error                               { return nil }
-func (v *vSock) recv(buf []byte) (int, error)               { return 0, nil }
+func (v *vSock) close() error                              { return nil }
+func (v *vSock) recv(buf []byte) (int, error)              { return 0, nil }
 func (v *vSock) send(iface string, dst net.HardwareAddr, etherType uint16, data []byte) error {
 	v.frames = append(v.frames, data)
 	return nil
@@ -53,4 +53,19 @@ func verifSessionAny(s *Server, mac net.HardwareAddr, tag string) *Session {
 	st := ndInt(tag+".state", int(StateLCPNegotiation), int(StateEstablished))
 	sess.State = SessionState(st)
 	return sess
+}
+
+// verifRefOptions walks a Configure option list by RFC 1661 section 6, independently of the parser under test:
+// type, length (>= 2, within the list), data. It returns the options and whether the whole list was consumed; a
+// single dangling byte cannot hold an option and is tolerated (the parser under test ignores it too).
+func verifRefOptions(b []byte) (opts []LCPOption, examined bool) {
+	for len(b) >= 2 {
+		l := int(b[1])
+		if l < 2 || l > len(b) {
+			return opts, false
+		}
+		opts = append(opts, LCPOption{Type: b[0], Data: b[2:l]})
+		b = b[l:]
+	}
+	return opts, true
 }
